@@ -264,6 +264,32 @@ fn perm_case(case: &Value) -> Value {
         }
         Err(e) => check("interleaved", Err(panic_msg(e)), &base),
     }
+    // a build BEFORE any setter (default settings), then all setters, then a build: the second result must not remember the
+    // first (seed C10g: a "sorted once" flag set by the first build, invalidated by no setter); and a clone taken before
+    // the setters still builds with default settings afterwards
+    let r = catch_unwind(AssertUnwindSafe(|| {
+        let mut b = RegExpBuilder::from(&tcs);
+        let early = b.build();
+        let mut c0 = b.clone();
+        for n in names.iter() {
+            apply_flag(&mut b, n, &f);
+        }
+        let late = b.build();
+        let mut c1 = b.clone();
+        let early_clone = c0.build();
+        let late_clone = c1.build();
+        let fresh_default = RegExpBuilder::from(&tcs).build();
+        (early, late, early_clone, late_clone, fresh_default)
+    }));
+    match r {
+        Ok((early, late, early_clone, late_clone, fresh_default)) => {
+            check("build before any setter", Ok(early), &fresh_default);
+            check("build after build + all setters", Ok(late), &base);
+            check("clone taken before the setters", Ok(early_clone), &fresh_default);
+            check("clone taken after build + setters + build", Ok(late_clone), &base);
+        }
+        Err(e) => check("build before setters", Err(panic_msg(e)), &base),
+    }
     // concurrent builds
     let outs: Vec<Result<String, String>> = std::thread::scope(|sc| {
         let hs: Vec<_> = (0..8).map(|_| sc.spawn(|| plain_build(&tcs, &f))).collect();
